@@ -86,7 +86,15 @@ class AfterData:
 
 def frame(body_len, rng):
     body = bytes(rng.randrange(256) for _ in range(min(body_len, 64))) + bytes((i * 7 + 3) & 0xFF for i in range(max(0, body_len - 64)))
-    hdr = b"\x70\x00" + body_len.to_bytes(2, "little") + rng.getrandbits(32).to_bytes(4, "little") + bytes(4) + b"_pycomm_" + bytes(4)
+    # Framing depends on the length field alone: in half of the frames every other header field is arbitrary - any command
+    # code, a non-zero encapsulation status (an error reply may still carry a body), any sender context and options.
+    if rng.random() < 0.5:
+        hdr = b"\x70\x00" + body_len.to_bytes(2, "little") + rng.getrandbits(32).to_bytes(4, "little") + bytes(4) + b"_pycomm_" + bytes(4)
+    else:
+        cmd = rng.choice([0x0004, 0x0063, 0x0065, 0x0066, 0x006F, 0x0070, rng.getrandbits(16)])
+        status = rng.choice([0, 1, 2, 3, 0x64, 0x65, 0x69, 0x100, 0x80000000, 0xFFFFFFFF, rng.getrandbits(32)])
+        hdr = (cmd.to_bytes(2, "little") + body_len.to_bytes(2, "little") + rng.getrandbits(32).to_bytes(4, "little") + status.to_bytes(4, "little")
+               + bytes(rng.randrange(256) for _ in range(8)) + rng.choice([0, 0, rng.getrandbits(32)]).to_bytes(4, "little"))
     return hdr + body
 
 
